@@ -5,7 +5,7 @@ from .. import corr
 
 STREAMS = ["plugins"]
 RULE = ("0..8 section plugins with random acyclic before/after graphs (plus constraints naming absent plugins, "
-        "self-constraints, occasional cycles), required flags, digests returning None or a value; configs = subsets "
+        "self-constraints, occasional cycles) given as list / tuple / set / generator / iterator, loaded twice, required flags, digests returning None or a value; configs = subsets "
         "of the sections ± unknown sections ± a logging section; section content = a mapping, or (30 %) None / 0 / False / "
         "'' / [] / {} / a list / a string, handed to the digest by identity; entry points substituted in "
         "cobald.daemon.core.config.get_entrypoints; non-trivial = at least two plugins called and at least one "
@@ -13,6 +13,19 @@ RULE = ("0..8 section plugins with random acyclic before/after graphs (plus cons
 ASSUMPTIONS = ["the entrypoints API (substituted by generated objects with name/load()/extras)",
                "toposort package: re-implemented in Lean (Model/Sections.lean peel) and compared layer by layer up to the order inside one layer"]
 TRUSTED = ["toposort 1.10 (modelled, compared)", "logging.config.dictConfig for the logging section"]
+
+
+def as_iterable(names, kind):
+    """constraints() takes any iterable of names: a list, a tuple, a set, or a one-shot iterator"""
+    if kind == "tuple":
+        return tuple(names)
+    if kind == "set":
+        return set(names)
+    if kind == "generator":
+        return (n for n in names)
+    if kind == "iter":
+        return iter(list(names))
+    return list(names)
 
 
 class FakeEntry:
@@ -55,7 +68,8 @@ def gen_case(rng):
             before.append(rng.choice(absent))
         if rng.random() < 0.05:
             after.append(s)
-        plugins.append({"name": s, "required": rng.random() < 0.2, "before": before, "after": after})
+        plugins.append({"name": s, "required": rng.random() < 0.2, "before": before, "after": after,
+                        "iter": rng.choice(["list", "list", "tuple", "set", "generator", "iter"])})
     if cyc and n >= 2:
         a, b = rng.sample(range(n), 2)
         plugins[a]["after"].append(names[b])
@@ -88,7 +102,8 @@ def impl(case):
         def digest(data, name=p["name"]):
             log.append([name, data])
             return ("kept", name) if name in case["returns"] else None
-        digest = constraints(before=p["before"], after=p["after"], required=p["required"])(digest)
+        digest = constraints(before=as_iterable(p["before"], p.get("iter")), after=as_iterable(p["after"], p.get("iter")),
+                             required=p["required"])(digest)
         entries.append(FakeEntry(p["name"], digest))
     orig = core.get_entrypoints
     core.get_entrypoints = lambda group: list(entries)
@@ -102,6 +117,15 @@ def impl(case):
     finally:
         core.get_entrypoints = orig
     order = [p.section for p in plugins]
+    # the plugins are loaded again later in the same process (a second configuration, a reload)
+    core.get_entrypoints = lambda group: list(entries)
+    try:
+        try:
+            again = [p.section for p in core.load_section_plugins("vh.group")]
+        except Exception as e:
+            again = "error:%s" % type(e).__name__
+    finally:
+        core.get_entrypoints = orig
     cfg = {k: ({"version": 1} if k == "logging" else content_of(case.get("content", {}).get(k), k)) for k in case["cfg"]}
     try:
         content = load_configuration(dict(cfg), plugins)
@@ -113,7 +137,7 @@ def impl(case):
     except Exception as e:
         outcome = {"error": type(e).__name__}
         vals_ok = True
-    return {"order": order, "outcome": outcome, "log": [l[0] for l in log],
+    return {"order": order, "order_again": again, "outcome": outcome, "log": [l[0] for l in log],
             "data_ok": all(l[1] is cfg[l[0]] for l in log) and vals_ok}
 
 
@@ -140,6 +164,8 @@ def expect(case, o, m):
         return o["order"], "layers:%s" % m["layers"]
     if not order_matches_layers(o["order"], m["layers"]):
         return {"order": o["order"]}, {"layers": m["layers"]}
+    if not (isinstance(o.get("order_again"), list) and order_matches_layers(o["order_again"], m["layers"])):
+        return {"order_of_second_load": o.get("order_again")}, {"layers": m["layers"]}
     mo = m["outcome"]
     if "error" in mo:
         mo = {"error": "ConfigurationError"}
@@ -176,14 +202,20 @@ def oracle(case, o):
     if sorted(order) != sorted(names):
         out.append(("order-not-permutation", "plugin order %r is not a permutation of %r" % (order, names)))
         return out
-    idx = {s: i for i, s in enumerate(order)}
-    for p in case["plugins"]:
-        for a in p["after"]:
-            if a in idx and a != p["name"] and not idx[a] < idx[p["name"]]:
-                out.append(("after-violated", "%s must run after %s; order %r" % (p["name"], a, order)))
-        for b in p["before"]:
-            if b in idx and b != p["name"] and not idx[p["name"]] < idx[b]:
-                out.append(("before-violated", "%s must run before %s; order %r" % (p["name"], b, order)))
+    for which, od in (("", order), (" (second load of the same plugins)", o.get("order_again", order))):
+        if not isinstance(od, list) or sorted(od) != sorted(names):
+            out.append(("order-not-permutation", "plugin order%s %r is not a permutation of %r" % (which, od, names)))
+            return out
+        idx = {s: i for i, s in enumerate(od)}
+        for p in case["plugins"]:
+            for a in p["after"]:
+                if a in idx and a != p["name"] and not idx[a] < idx[p["name"]]:
+                    out.append(("after-violated", "%s must run after %s; order%s %r" % (p["name"], a, which, od)))
+            for b in p["before"]:
+                if b in idx and b != p["name"] and not idx[p["name"]] < idx[b]:
+                    out.append(("before-violated", "%s must run before %s; order%s %r" % (p["name"], b, which, od)))
+        if out:
+            return out
     cfg = [k for k in case["cfg"] if k != "logging"]
     unknown = [k for k in cfg if k not in names]
     missing = [s for s in names if byname[s]["required"] and s not in cfg]
